@@ -27,7 +27,7 @@ FUNCTIONS = [
     "pyoak.node:ASTNode.duplicate",
 ]
 
-OPS = ["leaf", "parent", "duplicate", "dc_replace", "replace", "replace_raises", "detach", "detach_self", "roundtrip", "roundtrip_after_detach", "drop"]
+OPS = ["leaf", "parent", "duplicate", "dc_replace", "replace", "replace_raises", "replace_raises_late", "detach", "detach_self", "roundtrip", "roundtrip_after_detach", "drop"]
 
 _COLLIDE: dict[int, int] = {}
 
@@ -243,6 +243,20 @@ def make_harness(K: int, first_ops: list[str], digest_sizes: list[int], max_hand
                     except Exception:  # noqa: BLE001
                         raised = True
                     history.append(f"h{hi}.replace(no_such_field=1)  # raises")
+                    after = {k: id(v) for k, v in NODE_REGISTRY.items()}
+                    if not raised or before != after:
+                        scenario.update(raised=raised, before=sorted(before), after=sorted(after))
+                        e.fail("failed-replace-changes-registry", scenario=scenario)
+                elif op == "replace_raises_late":
+                    # the construction of the new node fails inside __post_init__ (after the original
+                    # was taken out of the registry), with an error other than TypeError / ValueError
+                    before = {k: id(v) for k, v in NODE_REGISTRY.items()}
+                    try:
+                        h.replace(origin=None)
+                        raised = False
+                    except Exception:  # noqa: BLE001
+                        raised = True
+                    history.append(f"h{hi}.replace(origin=None)  # raises inside __post_init__")
                     after = {k: id(v) for k, v in NODE_REGISTRY.items()}
                     if not raised or before != after:
                         scenario.update(raised=raised, before=sorted(before), after=sorted(after))
